@@ -12,7 +12,16 @@ C14 -- genotyping is deterministic, isolated and leaves the database untouched (
              to the model for one candidate can depend on its company / the order
   store      the process-wide debug store (aldy.common.json) is never read by a stage:
              every stage is re-run with a poisoned store and must return the same result
-Outside (stated, not sampled): hash seeds, fresh processes, multi-gene runs through files.
+  hashorder  the order in which Python iterates the set of considered variants (= the hash
+             seed) must not influence the minor model: for every evidence table of a grid
+             the real estimate_minor builds its model under two injected iteration orders;
+             identical construction sequences settle it, otherwise z3.Optimize decides
+             whether the optimum under one order is optimal under the other and whether
+             it is unique; a candidate is reported only after fresh processes with
+             different PYTHONHASHSEED really disagree
+Outside (stated, not sampled): fresh processes in general, multi-gene runs through files,
+iteration order inside the major / structure models (their enumeration reports every
+optimum, C05).
 """
 import io
 import copy
@@ -37,8 +46,10 @@ EXPLANATION = ("partial claim: (a) purity of accessors/stages/writers by solver-
                "exploration of argument choices with before/after digests of the Gene and "
                "the evidence; (b) candidate independence of the minor stage decided by z3 "
                "on symbolic read counts through the real estimate_minor; (c) poisoned "
-               "debug store. Hash seeds, fresh processes and multi-gene file runs are "
-               "outside solver reach and are not claimed.")
+               "debug store; (d) independence of the minor model from the iteration (hash) "
+               "order of the variant set, decided by model-sequence identity / z3.Optimize "
+               "on the captured models and confirmed with real hash seeds. Multi-gene file "
+               "runs and process-level effects other than the hash seed are not claimed.")
 FUNCTIONS = ["aldy.solutions.SolvedAllele.{mutations,major_repr,__str__,__hash__}",
              "aldy.solutions.MinorSolution.{get_*,_solution_nice}",
              "aldy.solutions.{CNSolution,MajorSolution}.{__str__,_solution_nice,position_cn}",
@@ -49,9 +60,12 @@ FUNCTIONS = ["aldy.solutions.SolvedAllele.{mutations,major_repr,__str__,__hash__
              "aldy.minor.estimate_minor", "aldy.diplotype.{write_decomposition,write_vcf,"
              "estimate_diplotype}", "aldy.query.query"]
 STUBS = ["candidates: minor.solve_minor_model -> recorder of the coverage it is handed; "
-         "Coverage.coverage/total -> symbolic counts with the real filter functions"]
-OUTSIDE = ["hash seeds / fresh processes / multi-gene recursion through files / a failing "
-           "gene in a multi-gene run (process and I/O level)"]
+         "Coverage.coverage/total -> symbolic counts with the real filter functions",
+         "hashorder: aldy.minor.set -> set subclass with an injected iteration order; "
+         "lpinterface.model -> capturing backend"]
+OUTSIDE = ["multi-gene recursion through files / a failing gene in a multi-gene run "
+           "(process and I/O level); hash-order effects outside solve_minor_model (the "
+           "major and structure stages report every optimum of their models)"]
 ASSUMPTIONS = ["digest = pickle of the Gene's public tables (alleles, configurations, "
                "mutations, regions, maps) and of the coverage tables"]
 RULE = ("one evaluation = one accessor/stage call with solver-chosen arguments and a "
@@ -61,7 +75,12 @@ RULE = ("one evaluation = one accessor/stage call with solver-chosen arguments a
 def BOUNDS(tier):
     return ["purity: genes toy, GA; every allele/minor of the gene as receiver (symbolic "
             "index), added/lost subsets of <=1 variant", "candidates: toy and GA, two "
-            "candidates with structures of 2 and 3 copies, symbolic counts, all orders"]
+            "candidates with structures of 2 and 3 copies, symbolic counts, all orders",
+            "hashorder: GA hg19, major *1/*2 with and without two novel substitutions at one "
+            "site; evidence grid 0/10/20 reads per considered variant (162 / 27 tables); "
+            "reference order vs " + ("11 / 4" if tier == "thorough" else "4 / 2") +
+            " permuted orders (transpositions, reversal); confirmation with hash seeds "
+            f"0..{HASH_SEEDS - 1}"]
 
 
 def configs(tier):
@@ -70,6 +89,14 @@ def configs(tier):
         c.append({"kind": "purity", "gene": g})
         c.append({"kind": "stages", "gene": g})
         c.append({"kind": "candidates", "gene": g})
+    # iteration (hash) order of the variant set in the minor model
+    two = [[5060, "A>C"], [5060, "A>G"]]
+    for perm in range(4 if tier == "quick" else 11):
+        c.append({"kind": "hashorder", "gene": "GA", "genome": "hg19", "cn": ["1", "1"],
+                  "major": {"1": 1, "2": 1}, "added": two, "perm": perm})
+    for perm in range(2 if tier == "quick" else 4):
+        c.append({"kind": "hashorder", "gene": "GA", "genome": "hg19", "cn": ["1", "1"],
+                  "major": {"1": 1, "2": 1}, "added": None, "perm": perm})
     return c
 
 
@@ -331,6 +358,9 @@ def run_candidates(cfg):
                              cn_sol, [])
 
     A, B = mk(mjA), mk(mjB)
+    # a third candidate with A's gene structure held in a separate (equal) structure object
+    mjC = {"cn": ["1", "1"], "major": {"1": 2}}
+    C = mk(mjC)
     cov_mod.max = symx.smax
     rec = {}
     real = minor.solve_minor_model
@@ -346,7 +376,8 @@ def run_candidates(cfg):
         def run():
             aldy.common.json.clear()
             outs = {}
-            for name, lst in (("A alone", [A]), ("A,B", [A, B]), ("B,A", [B, A])):
+            for name, lst in (("A alone", [A]), ("A,B", [A, B]), ("B,A", [B, A]),
+                              ("A,C", [A, C]), ("C,A", [C, A])):
                 rec.clear()
                 cov = stagelib.SymCoverage(gene, prof, counts, totals, identity_filter=False)
                 minor.estimate_minor(gene, cov, lst, "any")
@@ -354,10 +385,16 @@ def run_candidates(cfg):
             return outs
 
         for dec, pc, outs in eng.explore(run, base, max_paths=20000):
-            same = len(set(outs.values())) == 1
-            ob(res, f"{tag}: the evidence handed to the model for candidate A is the same "
-                    "alone, before and after another candidate", "holds" if same else "sat")
-            if not same:
+            for other, spec_, key_ in (("B", mjB, "candidate-filter"),
+                                       ("C", mjC, "candidate-same-structure")):
+                same = len({outs[n_] for n_ in ("A alone", f"A,{other}", f"{other},A")}) == 1
+                ob(res, f"{tag}: the evidence handed to the model for candidate A is the "
+                        "same alone, before and after another candidate"
+                        + (" of a different gene structure" if other == "B" else
+                           " of the same gene structure (separate structure object)"),
+                   "holds" if same else "sat")
+                if same:
+                    continue
                 st, mdl = eng.satisfiable([z3.IsInt(x) for x in xs.values()])
                 if st != "sat":
                     st, mdl = eng.satisfiable([])
@@ -365,12 +402,12 @@ def run_candidates(cfg):
                         for m, x in xs.items()}
                 rp = {"kind": "candidates", "gene": cfg["gene"], "counts": vals,
                       "thr": float(symx.model_value(mdl, thr)),
-                      "mc": float(symx.model_value(mdl, mc)), "A": mjA, "B": mjB}
+                      "mc": float(symx.model_value(mdl, mc)), "A": mjA, "B": spec_}
                 okk, msg = replay(rp)
                 res["stats"]["replays"] = res["stats"].get("replays", 0) + 1
                 if okk:
-                    res["violations"].append({"what": f"{tag}: {msg}",
-                                              "key": "candidate-filter", "replay": rp})
+                    res["violations"].append({"what": f"{tag}: {msg}", "key": key_,
+                                              "replay": rp})
                 else:
                     res["inconclusive"].append(msg)
                     ob(res, f"UNREPRODUCED counterexample: {tag}", "inconclusive")
@@ -443,12 +480,328 @@ def _replay_candidates(o):
         if isinstance(sols, str):
             res[name] = sols
         else:
+            a_sol = dict(mk(o["A"]).solution)
             res[name] = sorted((round(s.score, 4), s._solution_nice()) for s in sols
-                               if sum(s.major_solution.cn_solution.solution.values())
-                               == len(o["A"]["cn"]))
+                               if dict(s.major_solution.solution) == a_sol)
     return len({repr(v) for v in res.values()}) > 1, (
         f"refinement of candidate {o['A']['major']} depends on its company: {res} "
         f"[counts x10 {o['counts']}, threshold {o['thr']}]")
+
+
+# ------------------------------------------------------------------ iteration (hash) order
+
+
+class PermSet(set):
+    """set whose iteration order over variants is a chosen permutation: the stand-in for
+    'the order a set of (int, str) tuples happens to have under some hash seed'."""
+
+    order = {}
+
+    def __iter__(self):
+        items = list(set.__iter__(self))
+        return iter(sorted(items, key=lambda x: (
+            (PermSet.order.get(x, 10 ** 6), x) if isinstance(x, tuple) else (0, x))))
+
+    def __or__(self, o):
+        return PermSet(set.__or__(self, o))
+
+    __ror__ = __or__
+
+    def __and__(self, o):
+        return PermSet(set.__and__(self, o))
+
+    def __sub__(self, o):
+        return PermSet(set.__sub__(self, o))
+
+    def copy(self):
+        return PermSet(self)
+
+
+HASH_SEEDS = 24
+HD = 10  # reads per copy
+
+
+def _ho_added(gene, spec):
+    return [Mutation(int(p), op) for p, op in (spec or [])]
+
+
+def _ho_tables(gene, cfg, muts):
+    """evidence grid: every considered variant seen on 0, 1, ... copies (HD reads per copy),
+    at most the locus depth per site."""
+    import itertools
+
+    tot = {m: HD * stagelib.position_cn(gene, cfg["cn"], m.pos) for m in muts}
+    doms = [range(0, int(tot[m]) + 1, HD) for m in muts]
+    for vals in itertools.product(*doms):
+        bypos = collections.Counter()
+        for m, v in zip(muts, vals):
+            if not stagelib.is_ins(m):
+                bypos[m.pos] += v
+        if all(bypos[m.pos] <= tot[m] for m in muts):
+            yield {f"{m.pos}|{m.op}": v for m, v in zip(muts, vals)}
+
+
+def _ho_capture(o, order):
+    """the model the real estimate_minor builds for the evidence o under an injected
+    iteration order of the variant set (capture backend, real Coverage and filters)."""
+    import aldy.minor as minor
+    import aldy.common
+
+    gene, cov, msol = _ho_inputs(o)
+    PermSet.order = {Mutation(int(p), op): i for i, (p, op) in enumerate(order)}
+    saved = minor.__dict__.get("set")
+    minor.set = PermSet
+    try:
+        aldy.common.json.clear()
+        with symx.install() as inst, contextlib.redirect_stdout(io.StringIO()):
+            minor.estimate_minor(gene, cov, [msol], "z3")
+            return inst.models[-1] if inst.models else None
+    finally:
+        if saved is None:
+            minor.__dict__.pop("set", None)
+        else:
+            minor.set = saved
+
+
+def _ho_optimize(M, fixed=None, at_most=None, differs=None):
+    """z3.Optimize over the captured model; fixed: selector raw name -> bool."""
+    o = z3.Optimize()
+    o.set("timeout", 60000)
+    for c in M.z3_constraints():
+        o.add(c)
+    for name, val in (fixed or {}).items():
+        o.add(M.byraw[name].zv == val)
+    if at_most is not None:
+        o.add(M.obj_z3() <= at_most)
+    if differs is not None:
+        o.add(z3.Or([M.byraw[n].zv != v for n, v in differs.items()]))
+    o.minimize(M.obj_z3())
+    r = o.check()
+    if r != z3.sat:
+        return str(r), None, None
+    mdl = o.model()
+    point = {v.raw: z3.is_true(mdl.eval(v.zv, model_completion=True)) for v in M.vars
+             if v.kind == "B" and v.raw.split("_")[0] in ("A", "K", "N")}
+    return "sat", symx.model_value(mdl, M.obj_z3()), point
+
+
+def _ho_sequence(M):
+    def num(k):
+        if isinstance(k, S):
+            return float(z3.simplify(k.t).as_fraction())
+        return float(k)
+
+    def lin(e):
+        return [(v.name, num(k)) for v, k in e.terms.items()], num(e.const)
+
+    return ([(v.name, v.kind, v.lb, v.ub) for v in M.vars],
+            [(c.name, c.sense, lin(c.lhs)) for c in M.constrs], lin(M.objective))
+
+
+def _ho_signature(point):
+    """what an assignment reports: multiset of (allele, kept variants, added variants)."""
+    out = []
+    for n, v in point.items():
+        if v and n.startswith("A_"):
+            suf = n[1:]  # _major_minor_copy
+            kept = sorted(k[2:-len(suf)] for k, kv in point.items()
+                          if kv and k.startswith("K_") and k.endswith(suf))
+            add = sorted(k[2:-len(suf)] for k, kv in point.items()
+                         if kv and k.startswith("N_") and k.endswith(suf))
+            out.append((suf.rsplit("_", 1)[0], tuple(kept), tuple(add)))
+    return sorted(out)
+
+
+def run_hashorder(cfg):
+    """Does the set of optimal refinements depend on the order in which the set of
+    considered variants is iterated (= on the hash seed)?  For every evidence table of the
+    grid the real estimate_minor builds its model twice (reference order / permuted
+    order); z3.Optimize decides whether the optimum under one order is optimal under the
+    other, and whether the optimum is unique."""
+    import itertools
+    import time
+    import c04
+
+    res = new_result(cfg)
+    gene = gengene.load(cfg["gene"], cfg["genome"])
+    added = _ho_added(gene, cfg.get("added"))
+    muts = c04.considered(gene, cfg["major"], added)
+    tag = f"hashorder/{cfg['gene']}/{cfg['genome']}/{cfg['major']}" + (
+        "+novel" if cfg.get("added") else "") + f"/perm{cfg['perm']}"
+    n = len(muts)
+    ident = [[m.pos, m.op] for m in muts]
+    perms = []
+    for i, j in itertools.combinations(range(n), 2):
+        o = list(ident)
+        o[i], o[j] = o[j], o[i]
+        perms.append(o)
+    perms.append(list(reversed(ident)))
+    pi2 = perms[cfg["perm"] % len(perms)]
+    stats = collections.Counter()
+    confirmed = set()
+    for table in _ho_tables(gene, cfg, muts):
+        o = {"kind": "hashorder", "gene": cfg["gene"], "genome": cfg["genome"],
+             "cn": list(cfg["cn"]), "major": cfg["major"], "added": cfg.get("added"),
+             "counts": table, "pi1": ident, "pi2": pi2}
+        t0 = time.time()
+        M1, M2 = _ho_capture(o, ident), _ho_capture(o, pi2)
+        stats["tables"] += 1
+        if M1 is None or M2 is None:
+            ob(res, f"{tag}: a model is built for both orders", "holds"
+               if (M1 is None) == (M2 is None) else "sat")
+            continue
+        # identical construction sequence (variables, constraints, objective) under both
+        # orders: the solver gets the same input, nothing can depend on the order
+        if _ho_sequence(M1) == _ho_sequence(M2):
+            stats["identical_models"] += 1
+            ob(res, f"{tag}: the model is built identically (same variables, constraints "
+                    "and objective in the same sequence) under both iteration orders",
+               "holds", time.time() - t0)
+            continue
+        st1, v1, x1 = _ho_optimize(M1)
+        st2, v2, x2 = _ho_optimize(M2)
+        stats["queries"] += 2
+        if st1 != "sat" or st2 != "sat":
+            ob(res, f"{tag}: optimum exists under both orders or under neither",
+               "holds" if st1 == st2 and st1 == "unsat" else "unknown")
+            continue
+        # (a) the optimum under the reference order must be optimal under the other order
+        st21, v21, _ = _ho_optimize(M2, fixed=x1)
+        stats["queries"] += 1
+        what = None
+        if st21 != "sat" or float(v21) > float(v2) + 1e-9:
+            if _ho_signature(x1) != _ho_signature(x2):
+                what = "order"
+        elif cfg["perm"] == 0:
+            # (b) uniqueness: another assignment with the same objective that reports
+            # something else is chosen by the solver's internal (variable) order
+            st3, v3, x3 = _ho_optimize(M1, at_most=v1, differs=x1)
+            stats["queries"] += 1
+            if st3 == "sat" and _ho_signature(x3) != _ho_signature(x1):
+                what = "tie"
+        status = "holds"
+        if what and what not in confirmed and stats["replays"] >= 8:
+            status = "unknown"
+        elif what and what not in confirmed:
+            o["what"] = what
+            okk, msg = replay(o)
+            stats["replays"] += 1
+            if okk:
+                confirmed.add(what)
+                status = "sat"
+                res["violations"].append({"what": f"{tag}: {msg}", "key": "hash-order",
+                                          "replay": o})
+            else:
+                # an injected order / an exact tie is an over-approximation of what hash
+                # seeds do: a difference no real seed shows is not reported
+                status = "unknown"
+                res["inconclusive_notes"] = res.get("inconclusive_notes", []) + [msg]
+        elif what:
+            status = "sat"
+        ob(res, f"{tag}: the optimum of the minor model does not depend on the iteration "
+                "order of the variant set" + (" and is unique" if cfg["perm"] == 0 else ""),
+           status, time.time() - t0)
+    res["stats"] = {**dict(stats), "paths": stats["tables"], "solver_s": 0}
+    res["obligations"] = [{"label": o_["label"], "status": o_["status"], "secs": 0}
+                          for o_ in res["obligations"]]
+    return res
+
+
+_HO_CHILD = r"""
+import sys, json, collections, warnings
+warnings.filterwarnings("ignore")
+import gengene, stagelib
+from aldy.gene import Mutation
+from aldy.profile import Profile
+from aldy.solutions import CNSolution, MajorSolution, SolvedAllele
+import aldy.minor as minor
+o = json.loads(sys.argv[1])
+import c14
+print(json.dumps(c14._ho_real(o)))
+"""
+
+
+def _ho_sig(sols):
+    out = []
+    for s in sols:
+        out.append([round(s.score, 3), sorted(
+            [a.major, a.minor, sorted(map(str, a.added)), sorted(map(str, a.missing))]
+            for a in s.solution)])
+    return out
+
+
+def _ho_inputs(o):
+    gene = gengene.load(o["gene"], o["genome"])
+    prof = Profile("r")
+    counts = {}
+    for k, v in o["counts"].items():
+        pos, op = k.split("|", 1)
+        if v > 0:
+            counts[Mutation(int(pos), op)] = int(v)
+    sites = {m.pos for m in counts}
+    full = dict(counts)
+    for p in sites:
+        tot = HD * stagelib.position_cn(gene, o["cn"], p)
+        alt = sum(c for m, c in counts.items() if m.pos == p and not stagelib.is_ins(m))
+        if tot - alt > 0:
+            full[Mutation(p, "_")] = tot - alt
+    cov = stagelib.concrete_coverage(gene, prof, full)
+    msol = MajorSolution(0, collections.Counter(
+        {SolvedAllele(gene, a): c for a, c in o["major"].items()}),
+        CNSolution(gene, 0, list(o["cn"])), _ho_added(gene, o.get("added")))
+    return gene, cov, msol
+
+
+def _ho_real(o, order=None):
+    """the real estimate_minor with CBC on concrete reads (optionally with an injected
+    iteration order)."""
+    import aldy.minor as minor
+
+    gene, cov, msol = _ho_inputs(o)
+    saved = minor.__dict__.get("set")
+    if order is not None:
+        PermSet.order = {Mutation(int(p), op): i for i, (p, op) in enumerate(order)}
+        minor.set = PermSet
+    try:
+        with contextlib.redirect_stdout(io.StringIO()):
+            sols = minor.estimate_minor(gene, cov, [msol], "any")
+        return _ho_sig(sols)
+    except Exception as e:  # noqa
+        return f"raised {type(e).__name__}: {e}"
+    finally:
+        if order is not None:
+            if saved is None:
+                minor.__dict__.pop("set", None)
+            else:
+                minor.set = saved
+
+
+def replay_hashorder(o):
+    import os
+    import sys
+    import json
+    import subprocess
+
+    a, b = _ho_real(o, o["pi1"]), _ho_real(o, o["pi2"])
+    if a == b and o.get("what") != "tie":
+        return False, "not reproduced with CBC under the two injected orders"
+    procs = []
+    for seed in range(HASH_SEEDS):
+        env = dict(os.environ, PYTHONHASHSEED=str(seed))
+        procs.append(subprocess.Popen([sys.executable, "-c", _HO_CHILD, json.dumps(o)],
+                                      env=env, stdout=subprocess.PIPE,
+                                      stderr=subprocess.DEVNULL, text=True))
+    outs = {}
+    for seed, p in enumerate(procs):
+        out = p.communicate()[0].strip().split("\n")[-1]
+        outs.setdefault(out, []).append(seed)
+    if len(outs) > 1:
+        return True, ("the same evidence is refined differently in fresh processes with "
+                      "different hash seeds: " + "; ".join(
+                          f"seeds {v[:6]} -> {k[:300]}" for k, v in outs.items())
+                      + f" [reads {o['counts']}, major {o['major']}, added {o.get('added')}]")
+    return False, (f"CBC results differ under the injected orders ({a} vs {b}) but hash "
+                   f"seeds 0..{HASH_SEEDS - 1} all give the same result")
 
 
 def replay_none(o):
